@@ -33,7 +33,8 @@ func init() {
 			"(S1) scope preservation of SET: every function of the loaded packages that executes SET through a scope object — i.e. calls SystemVariableScope.SetValue (today rowexec.setSystemVar: the primary write and the eight derived " +
 			"character_set_*/collation_* writes) — performs all its scope writes on one and the same receiver path (the Scope field of the variable being set, local aliases resolved, not reassigned in the function), and neither its body nor " +
 			"a same-package helper it calls writes a variable through a fixed-scope store; the fixed-scope stores are read from the implementations of SetValue (the module methods that receive its name parameter: " +
-			"Session.SetSessionVariable, SystemVariableRegistry.SetGlobal, PersistableSession.PersistGlobal/RemovePersistedGlobal, and concrete methods implementing them), allowed only under an if/switch testing that scope path.",
+			"Session.SetSessionVariable, SystemVariableRegistry.SetGlobal, PersistableSession.PersistGlobal/RemovePersistedGlobal, and concrete methods implementing them), allowed only under an if/switch testing that scope path. " +
+			"(S2) a variable is set only at a scope it has: the leading error-returning guards of MysqlSystemVariable.SetValue, folded over the global flag and the scope type (helper methods with a single return are followed), are taken for certain on a GLOBAL set of a session-only variable and on a session-scope set of a global-only variable.",
 		NotCovered: "SET validation of arbitrary run-time values (the Convert functions themselves), session/global visibility beyond the key discipline, folded-name maps that do not hold variables (listed in a note: collations, character sets, " +
 			"external procedures, index-builder ranges, database provider), maps reached other than by loading a field or package variable, status variables (never folded: MySQL status names are used verbatim), which scope object the planner attaches to a statement (planbuilder) and what a guarded fixed-scope store tests (S1 accepts any test mentioning the scope path), helpers in other packages and interface calls reached from an executor, scope semantics (MysqlSystemVariable.SetValue only " +
 			"distinguishes global-only and session-only, every other scope constant behaves like BOTH), user variables, status variables (their Default/Type pairs are counters by convention), " +
@@ -41,6 +42,7 @@ func init() {
 		Run: func(c *Ctx) {
 			runC44(c, "sql/variables", "sql", "sql/types", "MysqlSystemVariable", 349, 1, 20)
 			runC44Scope(c, c44sCfg{sqlRel: "sql", scopeIface: "SystemVariableScope", setMethod: "SetValue", floor: 9})
+			runC44SetterGuards(c, "sql", "MysqlSystemVariable.SetValue", "SystemVariableScope_Session", "SystemVariableScope_Global", 2)
 		},
 		Fixture: func(c *Ctx, fx *Prog) {
 			expectFixture(c, fx, "c44: wrong key, wrong type name, default out of bounds, non-member enum default, bad bounds, value function kind must be reported",
